@@ -59,6 +59,15 @@ fn decode(tape: &[u32], tier: Tier) -> Case {
     let batch = t.usize(1, ntrain + 1);
     let print = [None, None, None, None, None, None, None, None, Some(1), Some(2), Some(3), Some(100)][t.pick(12)];
     let mut case = Case { inputs, w0, obj, lr, train, val, with_val, tol, budget, batch, print };
+    // one case in ten: validation targets placed symmetrically around the weight's path (AE): the validation
+    // loss |w - c - r| + |w - c + r| is constant while w moves inside [c - r, c + r], but the accuracy changes
+    if inputs == 1 && t.chance(1, 10) {
+        let c = t.int(-4, 4) as f32 * 0.25;
+        let r = t.int(1, 8) as f32 * 0.25;
+        case.obj = ObjK::AE;
+        case.val = vec![(vec![1.0], c + r), (vec![1.0], c - r)];
+        case.with_val = true;
+    }
     // one case in eight: losses that creep by single units in the last place (a real, strict rise):
     // AE training towards a far target with learning rate 1 moves the weight by exactly 1 per epoch;
     // a validation input of 2^-k makes the validation loss |w * 2^-k - vy| move by one ulp per epoch.
